@@ -193,6 +193,85 @@ theorem reunite_same_hash (ef : Str → Option (List Str)) (jobs : List Inflight
           exact ⟨j, hj, Or.inr ⟨p, h, hs, i, hh, hn, hef, hc, hi⟩⟩
         · rw [hna] at harr; cases harr
 
+/-! ## only in-flight Batch jobs are reunited with -/
+
+theorem mem_listJobs {queue pfx : Str} {statuses : List Status} {jobs : List BatchJob} {j : BatchJob}
+    (h : j ∈ listJobs queue pfx statuses jobs) :
+    j ∈ jobs ∧ j.status ∈ statuses ∧ j.queue = queue ∧ pfx.isPrefixOf j.name = true := by
+  unfold listJobs at h
+  obtain ⟨st, hst, hj⟩ := List.mem_flatMap.1 h
+  obtain ⟨hmem, hp⟩ := List.mem_filter.1 hj
+  simp only [decide_eq_true_eq] at hp
+  exact ⟨hmem, hp.1 ▸ hst, hp.2.1, hp.2.2⟩
+
+theorem mem_listChildren {statuses : List Status} {j : BatchJob} {id : Str} {i : Nat}
+    (h : (id, i) ∈ listChildren statuses j) : ∃ st, (id, i, st) ∈ j.children ∧ st ∈ statuses := by
+  unfold listChildren at h
+  obtain ⟨st, hst, hc⟩ := List.mem_flatMap.1 h
+  obtain ⟨c, hcm, hce⟩ := List.mem_map.1 hc
+  obtain ⟨hmem, hp⟩ := List.mem_filter.1 hcm
+  simp only [decide_eq_true_eq] at hp
+  obtain ⟨cid, ci, cst⟩ := c
+  simp only [Prod.mk.injEq] at hce
+  obtain ⟨rfl, rfl⟩ := hce
+  exact ⟨cst, hmem, by simp only at hp; rw [hp]; exact hst⟩
+
+/-- Reuniting against the real queue, where finished jobs of earlier runs are still listed by the Batch
+API: a job is attached only to a Batch job (or array child) that is **in flight**, lies in the
+executor's queue, carries its job-name prefix, and was created for the job's own eval hash. -/
+theorem reunited_is_inflight_same_hash (ef : Str → Option (List Str)) (queue pfx : Str) (jobs : List BatchJob)
+    (pre pre' : Pre) (hw : ∀ j ∈ jobs, RedunNamed (toInflight j) ∨ Unrelated (toInflight j))
+    (hg : gatherQueue ef queue pfx jobs = .ok pre) (backend : Bool) (e id : Str) (he : IsHex e)
+    (alive : Str → Bool) (hr : reunite pre backend e alive = (pre', some id)) :
+    ∃ j ∈ jobs, j.queue = queue ∧ pfx.isPrefixOf j.name = true ∧ j.status ∈ inflightStatuses ∧
+      ((∃ p, j.name = jobName p e false ∧ id = j.jobId) ∨
+       (∃ p u hs i st, IsHex u ∧ j.name = jobName p u true ∧ ef u = some hs ∧ (id, i, st) ∈ j.children ∧
+          st ∈ inflightStatuses ∧ hs[i]? = some e)) := by
+  unfold gatherQueue at hg
+  have hw' : ∀ x ∈ (listJobs queue pfx inflightStatuses jobs).map toInflight, RedunNamed x ∨ Unrelated x := by
+    intro x hx
+    obtain ⟨j, hj, rfl⟩ := List.mem_map.1 hx
+    exact hw j (mem_listJobs hj).1
+  obtain ⟨_, _, x, hx, hc⟩ := reunite_same_hash ef _ pre pre' hw' hg backend e id he alive hr
+  obtain ⟨j, hj, rfl⟩ := List.mem_map.1 hx
+  obtain ⟨hmem, hst, hq, hp⟩ := mem_listJobs hj
+  refine ⟨j, hmem, hq, hp, hst, ?_⟩
+  rcases hc with ⟨p, hn, hid⟩ | ⟨p, u, hs, i, hu, hn, hef, hch, hi⟩
+  · exact Or.inl ⟨p, hn, hid⟩
+  · obtain ⟨st, hcm, hcst⟩ := mem_listChildren hch
+    exact Or.inr ⟨p, u, hs, i, st, hu, hn, hef, hcm, hcst, hi⟩
+
+/-- Consequently a job whose only namesakes are finished (or foreign-queue / foreign-prefix) Batch jobs is
+not attached to anything: it is submitted afresh. -/
+theorem finished_namesake_not_reunited (ef : Str → Option (List Str)) (queue pfx : Str) (jobs : List BatchJob)
+    (pre : Pre) (hw : ∀ j ∈ jobs, RedunNamed (toInflight j) ∨ Unrelated (toInflight j))
+    (hg : gatherQueue ef queue pfx jobs = .ok pre) (backend : Bool) (e : Str) (he : IsHex e) (alive : Str → Bool)
+    (hfin : ∀ j ∈ jobs, j.queue = queue → pfx.isPrefixOf j.name = true → j.status ∈ inflightStatuses →
+      (∀ p, j.name ≠ jobName p e false) ∧
+      (∀ p u hs i st id, j.name = jobName p u true → ef u = some hs → (id, i, st) ∈ j.children →
+        st ∈ inflightStatuses → hs[i]? ≠ some e)) :
+    (reunite pre backend e alive).2 = none := by
+  cases hres : reunite pre backend e alive with
+  | mk pre' r =>
+    cases r with
+    | none => rfl
+    | some id =>
+      exfalso
+      obtain ⟨j, hj, hq, hp, hst, hc⟩ :=
+        reunited_is_inflight_same_hash ef queue pfx jobs pre pre' hw hg backend e id he alive hres
+      obtain ⟨h1, h2⟩ := hfin j hj hq hp hst
+      rcases hc with ⟨p, hn, _⟩ | ⟨p, u, hs, i, st, _, hn, hef, hcm, hcst, hi⟩
+      · exact h1 p hn
+      · exact h2 p u hs i st id hn hef hcm hcst hi
+
+/-- non-vacuity: a SUCCEEDED job with the same name is not bound, the RUNNING one is -/
+example :
+    gatherQueue (fun _ => none) "q".toList "redun-job".toList
+      [⟨"redun-job-0c".toList, "old".toList, "q".toList, .succeeded, []⟩,
+       ⟨"redun-job-0d".toList, "live".toList, "q".toList, .running, []⟩,
+       ⟨"redun-job-0e".toList, "other-queue".toList, "q2".toList, .running, []⟩]
+      = .ok [("0d".toList, "live".toList)] := by rfl
+
 /-- non-vacuity: a single job and an array child are both found -/
 example :
     let ef : Str → Option (List Str) := fun u => if u = "ab".toList then some ["0a".toList, "0b".toList] else none
